@@ -14,7 +14,7 @@ import traceback
 from .report import Violation
 
 NWORKERS = int(os.environ.get('VERIF_WORKERS', '0')) or min(16, os.cpu_count() or 1)
-CASE_TIMEOUT = int(os.environ.get('VERIF_CASE_TIMEOUT', '30'))     # seconds; ordinary cases take milliseconds
+CASE_TIMEOUT = int(os.environ.get('VERIF_CASE_TIMEOUT', '90'))     # seconds; ordinary cases take milliseconds (real-process cases: seconds)
 STOP_AFTER_VIOLATIONS = 60      # per worker: a tree this broken needs no further exploration
 _ctx = multiprocessing.get_context('fork')
 MAX_VIOLS_PER_WORKER = 40
